@@ -290,6 +290,26 @@ func runC10Write(c *Ctx) {
 					}
 				}
 			}
+			// a pointer-receiver helper introduced since the baseline that only the decode-into adapters of
+			// the same type call on their own receiver is part of them
+			if isNewHelper(root) && root.Signature.Recv() != nil && s.how == "store" && f == root {
+				if _, isPtr := root.Signature.Recv().Type().(*types.Pointer); isPtr {
+					if base, _ := baseObject(s.target); base == ssa.Value(root.Params[0]) {
+						sites := c.P.callSitesOf(root)
+						only := len(sites) > 0
+						for _, cs := range sites {
+							caller := rootFunc(cs.Parent())
+							if !(caller.Name() == "Scan" || caller.Name() == "UnmarshalJSON") || caller.Signature.Recv() == nil || len(cs.Common().Args) == 0 || cs.Common().Args[0] != ssa.Value(caller.Params[0]) {
+								only = false
+							}
+						}
+						if only {
+							c.Except(instrPos(s.in), fn, construct, "helper of a decode-into adapter, called only on that adapter's own pointer receiver, which the caller owns")
+							continue
+						}
+					}
+				}
+			}
 			if FuncName(root) == "geom.assignToConcrete" && s.how == "store" {
 				c.Except(instrPos(s.in), fn, construct, "assigns a whole decoded value through the destination pointer supplied by Scan/UnmarshalJSON")
 				continue
